@@ -655,6 +655,8 @@ def gen_lock(g):
                                 ['ConstantPWM', 'ConstantPWM'],
                                 ['ConstantPWM']]))
     add_stops(g, scn, model, chain, p=0.15)
+    if g.chance(0.1) and not g.cfg.get('differential'):
+        add_remating_phase(g, scn, model, chain, k)
     return scn
 
 
@@ -1536,6 +1538,40 @@ def add_remating_phase(g, scn, model, chain, k):
         if len(into_a) != 1 or into_a[0]['op'] != 'joint':
             continue
         cands.append((into_a[0]['m'], a, b))
+    variant = r.choice(['replace_master', 'replace_master', 'insert_flywheel',
+                        'worm_friction'])
+    worms = [d for d in decls if d['op'] == 'worm' and d['m'] in chain and
+             els[d['m']]['kind'] == 'WormGear']
+    if variant == 'worm_friction' and worms:
+        # the worm mating declared again with a friction on either side of
+        # the self-locking threshold, then a NEW powertrain: its flag, the
+        # efficiency and the lock behaviour must follow the last declaration
+        d = dict(r.choice(worms))
+        alpha = si.q_si('Angle', els[d['m']]['alpha'])
+        beta = si.q_si('Angle', els[d['m']]['beta'])
+        thr, fmax = worm_f_range(alpha, beta, True)
+        if g.chance(0.5) and thr * 1.02 < fmax * 0.98:
+            d['f'] = float(r.uniform(thr * 1.02, fmax * 0.98))
+        else:
+            d['f'] = float(r.uniform(0.0, min(thr, fmax) * 0.98))
+        scn['schedule'].append({'op': 'reset', 'reapply': False})
+        scn['next'] = {'elements': [], 'decls': [d],
+                       'schedule': [gen_run(g, k, kdt=g.logu(0.02, 0.8))]}
+        return
+    if variant == 'insert_flywheel':
+        joints = [d for d in decls if d['op'] == 'joint' and d['m'] in chain
+                  and d['s'] in chain]
+        if joints:
+            d = r.choice(joints)
+            fw = {'kind': 'Flywheel', 'J': g.inertia(),
+                  'name': f'e{len(els)}_newfw'}
+            i = len(els)
+            scn['schedule'].append({'op': 'reset', 'reapply': False})
+            scn['next'] = {'elements': [fw],
+                           'decls': [{'op': 'joint', 'm': d['m'], 's': i},
+                                     {'op': 'joint', 'm': i, 's': d['s']}],
+                           'schedule': [gen_run(g, k, kdt=g.logu(0.02, 0.8))]}
+            return
     if not cands:
         return
     prev, a, b = r.choice(cands)
